@@ -11,11 +11,13 @@ open Macaroon Macaroon.Concrete
 def verrName : VErr → String
   | .unfinalized => "unfinalized" | .noDischarge => "noDischarge" | .unsealVK => "unsealVK"
   | .boundElsewhere => "boundElsewhere" | .attestationInNonProof => "attestationInNonProof"
+  | .wrappedAttestation => "wrappedAttestation"
   | .encodeErr => "encodeErr" | .dischargeFailed => "dischargeFailed" | .invalid => "invalid"
 
 def aerrName : AErr → String
   | .finalizedProof => "finalizedProof" | .encodeErr => "encodeErr"
   | .attestationOnNonProof => "attestationOnNonProof" | .duplicate3P => "duplicate3P"
+  | .wrappedAttestation => "wrappedAttestation"
 
 /-- `(trust (x<loc> x<ka> …) …)` -/
 def trust? : Sx → Option (Bytes → List Bytes)
